@@ -22,6 +22,7 @@ import (
 	"reflect"
 
 	"github.com/cloudwego/eino/internal/generic"
+	"github.com/cloudwego/eino/internal/serialization"
 	"github.com/cloudwego/eino/schema"
 )
 
@@ -160,6 +161,13 @@ type handlerPair struct {
 	transform streamHandler
 }
 
+// emptyStreamMark stands in a checkpoint for a stream without chunks; nil stands for a nil value.
+type emptyStreamMark struct{ Empty bool }
+
+func init() {
+	_ = serialization.GenericRegister[emptyStreamMark]("_eino_empty_stream")
+}
+
 type streamConvertPair struct {
 	concatStream  func(sr streamReader) (any, error)
 	restoreStream func(any) (streamReader, error)
@@ -176,14 +184,22 @@ func defaultStreamConvertPair[T any]() streamConvertPair {
 			value, err := concatStreamReader(tsr)
 			if err != nil {
 				if errors.Is(err, emptyStreamConcatErr) {
-					return nil, nil
+					return emptyStreamMark{Empty: true}, nil
 				}
 				return nil, err
 			}
 			return value, nil
 		},
 		restoreStream: func(a any) (streamReader, error) {
+			if _, empty := a.(emptyStreamMark); empty {
+				return packStreamReader(schema.StreamReaderFromArray([]T{})), nil
+			}
 			if a == nil {
+				if generic.TypeOf[T]().Kind() == reflect.Interface {
+					// a nil value of an interface type: one chunk, as for any other value
+					return packStreamReader(schema.StreamReaderFromArray(make([]T, 1))), nil
+				}
+				// nil cannot be a value of T: a stream without chunks written before the mark existed
 				return packStreamReader(schema.StreamReaderFromArray([]T{})), nil
 			}
 			value, ok := a.(T)
